@@ -59,7 +59,7 @@ fn step_subtract() { let a: f64 = kani::any(); let b: f64 = kani::any();
 #[kani::proof]
 fn step_multiply() { let a: f64 = kani::any(); let b: f64 = kani::any();
     match eval(Node::Multiply(num(a), num(b))) { Ok(v) => assert!(same(v, a * b), "IEEE multiplication"), Err(e) => { std::mem::forget(e); assert!(false, "never Err") } } }
-// @obligation owners=C05,C20 fn=eval_f64::ast::eval/Divide tier=thorough
+// @obligation owners=C05,C20 fn=eval_f64::ast::eval/Divide tier=open
 #[kani::proof]
 fn step_divide() { let a: f64 = kani::any(); let b: f64 = kani::any();
     match eval(Node::Divide(num(a), num(b))) { Ok(v) => assert!(same(v, a / b), "IEEE division, non-finite results are values"), Err(e) => { std::mem::forget(e); assert!(false, "never Err") } } }
